@@ -1,9 +1,23 @@
 #!/bin/bash
-# Builds the framework from files on disk only and warms the Go build cache.
+# Builds the framework from files on disk only, warms the Go build cache and checks the two
+# assumptions the checks rest on: (1) the overlay instrumentation preserves behaviour (the
+# repository's own suite passes against the instrumented build with no scheduler installed),
+# (2) the harness builds against the current tree.
 set -e
 cd "$(dirname "$0")"
 export GOFLAGS=-mod=mod GOPROXY=off GOSUMDB=off GOTOOLCHAIN=local
 mkdir -p bin .build evidence replays
 go1.26.8 build -o bin/instrument ./cmd/instrument
 ./vcheck build
+if [ -z "${VERIF_SKIP_INERT:-}" ]; then
+  OV=$(mktemp -d .build/inert.XXXXXX)
+  ./bin/instrument -repo /repo -rt "$PWD/rt" -out "$PWD/$OV" >/dev/null
+  if (cd /repo && go1.26.8 test -overlay "$OLDPWD/$OV/overlay.json" -vet=off -count=1 . >"$OLDPWD/$OV/inert.log" 2>&1); then
+    echo "instrumented-but-inert suite: ok"
+  else
+    echo "WARNING: the repository's suite does not pass against the instrumented (inert) build:" >&2
+    tail -20 "$OV/inert.log" >&2
+  fi
+  rm -rf "$OV"
+fi
 echo "setup ok"
